@@ -30,8 +30,9 @@ Tr == ndJsonDeserialize(TraceFile)
 
 VARIABLES l, st, sent, resp, inw, closing, early
 \* inw: the transaction whose retransmission is inside the socket write ("" = none); closing: Close has been called
-\* early: transactions whose response was injected before their third transmission (more than half a second of real time
-\* before they can give up): they complete with that response
+\* early: transactions whose response was injected after their first and before their third transmission (the request
+\* is in the table, and there is more than half a second of real time before it can give up): they complete with that
+\* response.  (A response injected before the first transmission has left finds no transaction and is ignored.)
 tvars == <<l, st, sent, resp, inw, closing, early>>
 Line == Tr[l]
 IsEvent(e) == l <= Len(Tr) /\ Line.e = e /\ l' = l + 1
@@ -46,7 +47,7 @@ TSent  == IsEvent("Sent") /\ Line.t \in DOMAIN st /\ st[Line.t] = "pending"
           /\ Line.n = sent[Line.t] + 1 /\ Line.n <= 7
           /\ sent' = Put(sent, Line.t, Line.n) /\ UNCHANGED <<st, resp, inw, closing, early>>
 TResp  == IsEvent("Resp") /\ resp' = resp \cup {Line.t}
-          /\ early' = (IF Line.t \in DOMAIN sent /\ sent[Line.t] <= 2 /\ st[Line.t] = "pending" THEN early \cup {Line.t} ELSE early)
+          /\ early' = (IF Line.t \in DOMAIN sent /\ sent[Line.t] >= 1 /\ sent[Line.t] <= 2 /\ st[Line.t] = "pending" THEN early \cup {Line.t} ELSE early)
           /\ UNCHANGED <<st, sent, inw, closing>>
 \* completion: once; a response only if one was injected, a timeout only after the 7th transmission
 TRet   == IsEvent("Ret") /\ Line.t \in DOMAIN st /\ st[Line.t] = "pending"
